@@ -80,6 +80,23 @@ Lemma formerly_leaking_reset :
   forallb (fun f => mem f may_run && mem f (must_fields fn_resetCore)) ["fieldNames"; "fieldIndexes"; "reparseCSV"] = true.
 Proof. vm_compute. reflexivity. Qed.
 
+(* ---------- the per-Interpreter caches survive resetCore by design: their entries must be functions of the key alone ----------
+   formatCache is filled by parseFmtTypes, regexCache by compileRegex.  Neither filler (nor anything it calls)
+   may mention a field of struct interp other than its own cache and the program constants: in particular
+   nothing that setExecuteConfig, the prologue or a run writes (Chars, modes, CONVFMT ...), otherwise an entry made
+   under one Config would be reused under another. *)
+Definition cache_fillers : list (field * list field) :=
+  [ ("formatCache", refs_parseFmtTypes); ("regexCache", refs_compileRegex) ].
+Definition caches_config_independent : bool :=
+  forallb (fun cf => has_role Cache (fst cf) && mem (fst cf) (snd cf) &&
+                     forallb (fun f => String.eqb f (fst cf) || mem f const_fields) (snd cf)) cache_fillers &&
+  (* the only writers of the two caches are their fillers *)
+  forallb (String.eqb "parseFmtTypes") (writers_of "formatCache") &&
+  forallb (String.eqb "compileRegex") (writers_of "regexCache").
+
+Lemma caches_config_independent_holds : caches_config_independent = true.
+Proof. vm_compute. reflexivity. Qed.
+
 (* ---------- the hand-written model agrees with the generated table ---------- *)
 
 (* the model value of a Go right-hand side that is a constant *)
